@@ -23,12 +23,19 @@ META = {
     'assumptions': [],
 }
 
+# seeds written in an aromaticity model chython's thiele() does not share (exocyclic C=O rings, selenophene): for these the
+# clause "the freshly read aromatic spelling and its Kekule form aromatise alike" is not asked
+FOREIGN = {'O=c1cc[nH]cc1', 'Cn1cnc2c1c(=O)n(C)c(=O)n2C', 'c1cc[se]c1'}
+
 SEEDS_Q = ['c1ccccc1', 'c1ccncc1', 'c1cc[nH]c1', 'c1ccoc1', 'c1ccsc1', 'Cc1ccccc1', 'c1ccc2ccccc2c1', 'c1ccc2[nH]ccc2c1',
            'O=c1cc[nH]cc1', 'c1cc[n+](C)cc1', '[O-][n+]1ccccc1', 'c1cnccn1', 'c1ccc(cc1)-c1ccccc1', 'c1cn[nH]c1', 'Oc1ccccc1',
-           'c1coc(C)n1']
+           'c1coc(C)n1', 'c1cnc2nccnc2n1', 'c1ccc2c(c1)sc1nccn12', 'c1nnn[nH]1']
 SEEDS_T = SEEDS_Q + ['c1ccc2c(c1)ccc1ccccc12', 'c1ccc2cc3ccccc3cc2c1', 'Cn1cnc2c1c(=O)n(C)c(=O)n2C', 'c1ccc2ncccc2c1',
                      '[cH-]1cccc1', 'c1cc[o+]cc1', 'c1ccc2occc2c1', 'c1ccc2sccc2c1', 'c1cc2cccc3ccc4cccc1c4c32', 'c1ccpcc1',
-                     'c1cc[se]c1', 'b1ccccc1' if False else 'c1ccbcc1', 'O=C1C=CC(=O)C=C1', 'C1=CC=CC=C1']
+                     'c1cc[se]c1', 'b1ccccc1' if False else 'c1ccbcc1', 'O=C1C=CC(=O)C=C1', 'C1=CC=CC=C1',
+                     'c1cn2ccnc2s1', 'c1ccc2c(c1)[nH]c1cccn12', 'c1ccc2c(c1)oc1nccn12', 'c1cnc2nccnc2c1',
+                     'Cc1cnc2nc(N)nc(N)c2n1', 'c1ccc2nc3nccnc3nc2c1', 'c1ccc2c(c1)[nH]c1ccccc12', 'n1cnc2[nH]cnc2c1',
+                     'c1nc[nH]n1', 'c1cscn1', 'c1ccn2cccc2c1']
 
 
 def snapshot(m):
@@ -39,22 +46,77 @@ def snapshot(m):
     }
 
 
+VALENCES = {'B': (3,), 'C': (4,), 'N': (3, 5), 'O': (2,), 'P': (3, 5), 'S': (2, 4, 6), 'Se': (2, 4, 6), 'F': (1,), 'Cl': (1,),
+            'Br': (1,), 'I': (1,)}
+
+
+def written_hydrogens(smi):
+    """hydrogen count of every atom as the SMILES rules give it, read with the independent reader: a bracket atom has what
+    is written; an aromatic atom of the organic subset spends one valence on the ring pi system; others fill up the
+    lowest normal valence. Keys are chython's atom numbers (order of writing, from 1)."""
+    from vlib import refsmiles
+    ref = refsmiles.read(smi)
+    adj = ref.adjacency()
+    out = {}
+    for i, a in enumerate(ref.atoms):
+        if a.bracket:
+            out[i + 1] = a.hcount or 0
+            continue
+        used = sum(1 if o == 4 else o for o in adj[i].values()) + (1 if a.aromatic else 0)
+        sym = a.symbol.capitalize() if a.aromatic else a.symbol
+        # an aromatic atom never fills up to a higher valence: o, s and three-connected n give their lone pair to the ring
+        out[i + 1] = max(0, VALENCES[sym][0] - used) if a.aromatic else next((v - used for v in VALENCES[sym] if v >= used), 0)
+    return out
+
+
+def count_kekule_structures(m, kek):
+    """number of ways to place the ring double bonds: perfect matchings of the aromatic-bond graph over the atoms that
+    carry a ring double bond in one Kekule form (with hydrogens known, that atom set is the same in every form)"""
+    arom = {frozenset((x, y)) for x, y, b in m.bonds() if b.order == 4}
+    need = set()
+    for x, y, b in kek.bonds():
+        if b.order == 2 and frozenset((x, y)) in arom:
+            need.update((x, y))
+    edges = [tuple(e) for e in arom if e <= need]
+
+    def rec(free):
+        if not free:
+            return 1
+        a = min(free)
+        return sum(rec(free - {x, y}) for x, y in edges if a in (x, y) and x in free and y in free)
+    return rec(frozenset(need))
+
+
 def h_spellings(V, smi, form='aromatic'):
     import chython
     src = chython.smiles(smi)
+    fresh = src.copy()
     src.kekule()
     kek_ref = src.copy()
+    V.prove({n: a.implicit_hydrogens for n, a in kek_ref.atoms()} == written_hydrogens(smi),
+            'Kekule form of the seed has the hydrogens the written SMILES gives each atom (independent reader)',
+            {'seed': smi, 'got': {n: a.implicit_hydrogens for n, a in kek_ref.atoms()}, 'want': written_hydrogens(smi)})
     src.thiele()
     aro = str(src)
+    if smi not in FOREIGN and any(b.order == 4 for *_, b in fresh.bonds()):
+        fresh.thiele()
+        V.prove(str(fresh) == aro, 'the seed as read (aromatic spelling) and its Kekule form aromatise to the same form',
+                {'seed': smi, 'got': str(fresh), 'want': aro})
     start = src.copy() if form == 'aromatic' else kek_ref.copy()
     text, order = respell(V, start)
     m = chython.smiles(text)
     info = {'text': text, 'seed': smi}
+    if form == 'aromatic' and smi not in FOREIGN:
+        d = m.copy()
+        d.thiele()
+        V.prove(str(d) == aro, 'an aromatic spelling aromatises to the same form read directly or through its Kekule form',
+                dict(info, got=str(d), want=aro))
     had = m.kekule()
     V.prove(all(b.order in (1, 2, 3) for *_, b in m.bonds()), 'Kekule form has only single, double and triple bonds', info)
     V.prove(all(a.implicit_hydrogens is not None for _, a in m.atoms()) and m.check_valence() == [],
             'Kekule form has no valence error and every hydrogen count is known', info)
     k1 = snapshot(m)
+    kek_of_m = m.copy()
     korders = {(min(x, y), max(x, y)): b.order for x, y, b in m.bonds()}
     m.kekule()
     V.prove({(min(x, y), max(x, y)): b.order for x, y, b in m.bonds()} == korders and snapshot(m) == k1,
@@ -66,8 +128,12 @@ def h_spellings(V, smi, form='aromatic'):
             'counts are those of the seed', dict(info, got=k1['atoms']))
     V.prove(sorted((min(corr[a], corr[b]), max(corr[a], corr[b])) for a, b in ref['bonds']) == k1['bonds'], 'connectivity kept', info)
     V.prove(ref['formula'] == k1['formula'], 'formula kept', info)
-    forms = list(m.enumerate_kekule())
     m.thiele()
+    forms = list(m.enumerate_kekule())      # enumerated from the aromatic form, hydrogens known
+    V.prove(len(forms) == count_kekule_structures(m, kek_of_m), 'as many Kekule forms are enumerated as there are ways to '
+            'pair the double-bond atoms along aromatic bonds', dict(info, got=len(forms)))
+    V.prove(len({tuple(sorted((min(x, y), max(x, y), b.order) for x, y, b in f.bonds())) for f in forms}) == len(forms),
+            'enumerated Kekule forms are pairwise different', info)
     V.prove(str(m) == aro, 'aromatic form is the same for every spelling', dict(info, got=str(m), want=aro))
     t1 = snapshot(m)
     s1 = str(m)
@@ -78,6 +144,7 @@ def h_spellings(V, smi, form='aromatic'):
     for f in forms:
         V.prove(all(b.order in (1, 2, 3) for *_, b in f.bonds()) and f.check_valence() == [], 'every enumerated form is a valid '
                 'Kekule structure', info)
+        V.prove(snapshot(f) == k1, 'every enumerated form has the atoms, hydrogens and connectivity of the molecule', info)
         f.thiele()
         V.prove(str(f) == aro, 'every enumerated Kekule form aromatises to the same aromatic form', dict(info, got=str(f)))
     V.observe('text', text)
